@@ -53,9 +53,9 @@ RULE = ('Circle/Ellipse integer part: correspondence of contains() over box+marg
         'against the ideal circle/ellipse in exact integer arithmetic, mirror symmetry, row and column contiguity, circle touches its box, '
         'circle == equal-axes ellipse for contains() and points(). non-trivial = the shape has a point.')
 EXHAUSTIVE = {'quick': False, 'thorough': False}
-ASSUMPTIONS = ['Circle/Ellipse part: band, symmetry and contiguity hold for all integers in the model (no range hypothesis except diameter / axes >= 1 '
-               'where stated); touches-box and points() equality need the top-left within +-2^29 and the diameter within 2^29; products are '
-               'unbounded integers in the model (machine ranges: C05 assumptions / C08)']
+ASSUMPTIONS = ['Circle/Ellipse part: shapes within the machine range of C05 (circle: top-left within +-2^29, d <= 2^15; ellipse: w*h <= 2^31) and '
+               'probe points for which contains() does not overflow (probe_ok / eprobe_ok, exact conditions, see C05); outside that range the '
+               'code panics (overflow checks) or wraps (release) and band / symmetry / equality with the ellipse are not claimed']
 TRUSTED = []
 PARTIAL = []
 
